@@ -6,7 +6,7 @@ from props.common import *
 
 BOUNDS = ("schemas: catalogue U_Q (quick) / U_T (thorough), see vfw/catalogue.py; integers |n| <= 2^33 (quick) / 2^65 (thorough); "
           "octet/character strings up to 4 symbolic octets; OID arcs < 2^35; BIT STRING lengths 0..10 (0..18) x 3 patterns; "
-          "REAL base 2 |m| <= 20, |e| <= 9 (63, 31); defMode symbolic; maxChunkSize symbolic in [0, 2^31); plus payloads of 126..129, 255..257, 65535, 65536 octets in four shapes")
+          "REAL base 2 |m| <= 20, |e| <= 9 (63, 31) plus m in {1,3,-5} with e within 2 of +-2^7, +-2^8, +-2^15, +-2^16, +-2^23; defMode symbolic; maxChunkSize symbolic in [0, 2^31); plus payloads of 126..129, 255..257, 65535, 65536 octets in four shapes")
 OUTSIDE = "REAL from Python floats / base 10; utf-16/utf-32 string contents beyond the corpus; nesting depth > 3; schemas outside the catalogue"
 
 
